@@ -122,7 +122,7 @@ pub fn write_item(it: &Item, out: &mut String) {
     }
 }
 
-fn item_tokens(items: &[Item], trim_text: bool, out: &mut String) {
+pub fn item_tokens(items: &[Item], trim_text: bool, out: &mut String) {
     let mut body = String::new();
     let mut n = 0;
     for it in items {
